@@ -485,6 +485,12 @@ def check(case):
                 if exc0 is not None:
                     r.fail("crash:%s" % type(exc0).__name__, "first fit of the used selector: %r" % exc0)
                     return r
+                # the caller refills the same array objects in place and passes them again
+                Xo[...] = X
+                X = Xo
+                if yo is not None:
+                    yo[...] = y
+                    y = yo
         else:
             for key in ("n_to_select", "score_threshold", "score_threshold_type"):
                 if key in p:
